@@ -718,6 +718,11 @@ var c14DangerFamilies = []c14Danger{
 	{"deep-balanced-lists", "unbounded-list-recursion", c14DepthSteps("S1F1 W\n", "<L", "", ">", "\n.")},
 	{"deep-hinted-lists-with-leaf", "unbounded-list-recursion", c14DepthSteps("S1F1 W\n", "<L[1] ", "<U1 1>", ">", "\n.")},
 	{"deep-lists-newline-separated", "unbounded-list-recursion", c14DepthSteps("S1F1 W\n", "<L\n", "", ">\n", ".")},
+	// every level first CLOSES something (an empty list, a leaf item) before it descends: a depth account that is
+	// kept on open and close events drifts here and nowhere else
+	{"deep-lists-after-closed-list-sibling", "unbounded-list-recursion", c14DepthSteps("S1F1 W\n", "<L<L> ", "", ">", "\n.")},
+	{"deep-lists-after-closed-leaf-sibling", "unbounded-list-recursion", c14DepthSteps("S1F1 W\n", "<L <U1 1> <A \"x\"> ", "", ">", "\n.")},
+	{"deep-unclosed-lists-after-closed-sibling", "unbounded-list-recursion", c14DepthSteps("S1F1 W\n", "<L<L>", "", "", "")},
 }
 
 func (st *c14State) danger() {
